@@ -36,3 +36,9 @@ func trimStack(stack string) string {
 	}
 	return strings.Join(lines, "\n")
 }
+
+// Catch runs f, turning a panic into a *Panic error.
+func Catch(where string, f func() error) error { return catch(where, f) }
+
+// PanicSite names the first irismod function on a panic's stack.
+func PanicSite(stack string) string { return panicSite(stack) }
